@@ -408,10 +408,10 @@ func vfGenC02(rt *rapid.T) vfC02Case {
 	}
 	cs.Cfg = vfGenPairCfg(rt, total)
 	cs.Cfg.Timeout = 1
-	cs.Cfg.Overwrite = rapid.Bool().Draw(rt, "overwrite")
+	cs.Cfg.Overwrite = rapid.IntRange(0, 2).Draw(rt, "overwrite") != 1
 	cs.Cfg.Progress = false
 	cs.Cfg.TmuxJunk = false
-	if cs.Cfg.Overwrite && rapid.Bool().Draw(rt, "hasprev") {
+	if cs.Cfg.Overwrite && rapid.IntRange(0, 2).Draw(rt, "hasprev") != 1 {
 		cs.Prev = rapid.IntRange(1, 3).Draw(rt, "prev")
 		if rapid.Bool().Draw(rt, "resumeproto") && cs.Cfg.Protocol < 3 {
 			cs.Cfg.Protocol = rapid.SampledFrom([]int{3, 4}).Draw(rt, "rproto")
@@ -447,6 +447,27 @@ func vfGenC02(rt *rapid.T) vfC02Case {
 		}
 		l.Delta = rapid.SampledFrom([]int64{1, 1, 2, 100, 1000, 4096, -1, -100, 1 << 20, 1 << 40}).Draw(rt, "jdelta")
 		cs.JLies = append(cs.JLies, l)
+	}
+	if cs.Prev > 0 && cs.Cfg.Protocol >= 3 && len(cs.JLies) == 0 && rapid.IntRange(0, 1).Draw(rt, "hashack_fault") == 1 {
+		// a resumed transfer with damage aimed at the hash exchange itself: the receiver's answers to the prefix hashes are the
+		// acknowledgements number 2, 3, ... of its direction (behind those for NUM and NAME), the hashes the lines in front of them
+		back := map[bool]string{true: "s2c", false: "c2s"}[cs.Cfg.Upload]
+		fwd := map[bool]string{true: "c2s", false: "s2c"}[cs.Cfg.Upload]
+		f := vfFaultSpec{Mode: "typ", Late: true, Bit: rapid.IntRange(0, 7).Draw(rt, "ha_bit"),
+			Kind: rapid.SampledFrom([]string{vfFaultFlip, vfFaultFlip, vfFaultDelete, vfFaultDup, vfFaultInsert}).Draw(rt, "ha_kind"),
+			BSel: rapid.SampledFrom([]int{6, 7, 8, 9, 12, 20, 33, -2, -3, -5}).Draw(rt, "ha_bsel")}
+		if rapid.IntRange(0, 2).Draw(rt, "ha_side") != 0 {
+			f.Dir, f.Typ, f.Sel = back, "SUCC", rapid.SampledFrom([]int{2, 2, 2, 3, 4}).Draw(rt, "ha_sel")
+		} else {
+			f.Dir, f.Typ, f.Sel = fwd, "HASH", rapid.IntRange(0, 2).Draw(rt, "ha_hsel")
+		}
+		switch f.Kind {
+		case vfFaultDelete, vfFaultDup:
+			f.N = rapid.IntRange(1, 3).Draw(rt, "ha_n")
+		case vfFaultInsert:
+			f.Data = []byte(rapid.SampledFrom([]string{"A", "=", "x9", "\n"}).Draw(rt, "ha_ins"))
+		}
+		cs.Faults = append(cs.Faults, f)
 	}
 	if blockMultiple {
 		cs.Cfg.Compress = 2
